@@ -89,3 +89,23 @@ Proof.
   split; [apply wfb_sound; vm_compute; reflexivity|]. split; [|vm_compute; reflexivity].
   intros l g H. unfold c18_iff in H; simpl in H. gate_cases H; reflexivity.
 Qed.
+
+(* g1 = AND(a,b) and g2 = NOR(NOT a, NOT b) compute the same function but are not duplicates *)
+Definition c18_eq : circuit :=
+  mkCircuit ["a"; "b"] ["o1"; "o2"]
+    [("a", mkGate INPUT []); ("b", mkGate INPUT []); ("na", mkGate NOT ["a"]); ("nb", mkGate NOT ["b"]);
+     ("g1", mkGate AND ["a"; "b"]); ("g2", mkGate NOR ["na"; "nb"]);
+     ("o1", mkGate XOR ["g1"; "a"]); ("o2", mkGate XOR ["g2"; "b"])]
+    [("a", ["na"; "g1"; "o1"]); ("b", ["nb"; "g1"; "o2"]); ("na", ["g2"]); ("nb", ["g2"]); ("g1", ["o1"]); ("g2", ["o2"])] [].
+
+Lemma c18_eq_facts :
+  WF c18_eq /\
+  option_map (fun c => gates c) (res_to_option (transform TME c18_eq)) =
+  Some [("b", mkGate INPUT []); ("nb", mkGate NOT ["b"]); ("a", mkGate INPUT []); ("na", mkGate NOT ["a"]);
+        ("g2", mkGate NOR ["na"; "nb"]); ("o2", mkGate XOR ["g2"; "b"]); ("o1", mkGate XOR ["g2"; "a"])] /\
+  (do c' <- transform TME c18_eq; get_gates_truth_table c') =
+  Ok [("a", [F; F; T; T]); ("b", [F; T; F; T]); ("na", [T; T; F; F]); ("nb", [T; F; T; F]);
+      ("g2", [F; F; F; T]); ("o1", [F; F; T; F]); ("o2", [F; T; F; F])].
+Proof.
+  split; [apply wfb_sound; vm_compute; reflexivity|]. split; vm_compute; reflexivity.
+Qed.
